@@ -306,6 +306,9 @@ def replay_case(case: Dict[str, Any]) -> Dict[str, Any]:
 
 def replay(path: str) -> int:
     case = json.loads(open(path).read())
+    if case.get('glue'):
+        from fjv.checks import native_glue
+        return native_glue.replay(case)
     if case.get('native'):
         from fjv.llsx import native_replay
         return native_replay.replay(case)
@@ -341,3 +344,5 @@ def run(report: Report, tier: str, only: Optional[str] = None) -> None:
     common.run_pool(py_config, cfgs, report)
     from fjv.llsx import c01_native
     c01_native.run(report, tier, only, prop='C18')
+    from fjv.checks import native_glue
+    native_glue.run(report, tier, only, ['interrupt', 'library-io', 'foreign'])
